@@ -378,6 +378,22 @@ func WriteHeader(file *os.File, f *TimeBucketInfo) error {
 	return err
 }
 
+// CheckStorable reports whether the schema described by the given TimeBucketInfo can be stored in a
+// file header: at most maxNumElements columns, each with a name of at most elementNameHeaderBytes bytes.
+func (f *TimeBucketInfo) CheckStorable() error {
+	names := f.GetElementNames()
+	if len(names) > maxNumElements {
+		return fmt.Errorf("%d columns do not fit the file header (at most %d)", len(names), maxNumElements)
+	}
+	for _, name := range names {
+		if len(name) > elementNameHeaderBytes {
+			return fmt.Errorf("column name %q does not fit the file header (at most %d bytes)",
+				name, elementNameHeaderBytes)
+		}
+	}
+	return nil
+}
+
 // Load loads the header information from a given TimeBucketInfo.
 func (hp *Header) Load(f *TimeBucketInfo) {
 	if f.GetVersion() != FileinfoVersion {
